@@ -287,6 +287,9 @@ def plan_C02(prop, tier, seed, t0):
         dict(name="rand", engine="tograph", args=["--random", 250 if q else 4000, "--alphabet", "all", "--maxq", 3, "--maxlen", 8,
                                                   "--direct-every", 10 if q else 5, "--unknown-every", 16 if q else 8], **C),
         dict(name="rand4", engine="tograph", args=["--random", 40 if q else 400, "--alphabet", "unitary", "--maxq", 4, "--maxlen", 10], **C),
+        # ancilla initialisations in front of several still-open inputs, post-selections behind several still-open outputs, on 3-4 qubits, in
+        # every order (seed C02_e: the ORDER of the remaining inputs / outputs)
+        dict(name="anc", engine="tograph", args=["--random", 0, "--maxq", 4, "--anc-layouts", 60 if q else 1500], **C),
         # measurements with explicit outcome variables (shared, mixed with fresh ones, parities), also via QASM `measure` statements
         dict(name="vars", engine="tograph", args=["--random", 30 if q else 1500, "--alphabet", "all", "--maxq", 3, "--maxlen", 7, "--vars", "--meas-boost",
                                                   "--direct-every", 3], **C),
@@ -411,6 +414,10 @@ def plan_C12(prop, tier, seed, t0):
         # colour-changed, renamed, times i), ground truth = Den of the logged diagrams
         dict(name="rand", engine="eqcheck", args=["--random", 400 if q else 2500, "--alphabet", "unitary", "--maxq", 3, "--maxlen", 7,
                                                   "--graphs-every", 20 if q else 3], **T),
+        # circuit-derived maps that are not square (ancilla initialisation / post-selection: n -> m, m != n), seed C12_e: identical pairs,
+        # pairs differing by a cancelling pair / one gate, independent pairs; tensor checkers and arity tests judged in full, the
+        # rewriting-based checker (which presupposes unitaries) only on its "not equal" answers
+        dict(name="nonunitary", engine="eqcheck", args=["--nonunitary", 200 if q else 3000], shards=max(2, NCPU // 2), **T),
     ]
     return run_plan(prop, tier, seed, t0, mcs, traces, "model_checking", COMMON_ASSUME,
                     "MC: the checker's algorithm (adjoint, plug, every firing order of full_simp, identity test, scalar test) on every pair of "
